@@ -183,7 +183,9 @@ func verifySeal(
 	for seen, recent := range snap.Recents {
 		if recent == signer {
 			// Signer is among recents, only fail if the current block doesn't shift it out
-			if limit := uint64(len(snap.Validators)/2 + 1); seen > number-limit {
+			// (for a block number below the limit every recorded block is inside the window:
+			// number-limit would wrap around and disable the check)
+			if limit := uint64(len(snap.Validators)/2 + 1); number < limit || seen > number-limit {
 				return sdkerrors.Wrap(ErrRecentlySigned, signer.Hex())
 			}
 		}
